@@ -597,9 +597,11 @@ theorem solWaitOnFragment_reach (hp0 : PendOk pf a0) (a : Acc) (sr : Series) (dl
           · exact die_reach h5
           · rename_i a7 r7 hw
             have h7 := Star.tail h6 (Ev.wsol _ _ _ _ _ hw)
+            have h8 := Star.tail h7 (Ev.house a7 _ (House.lastReq a7.1
+              (a7.1.lastReq.map (fun lr => { lr with response := some r7 }))))
             split
-            · exact resumeAfterSol_reach hp0 _ _ h7
-            · exact Star.tail h7 (Ev.setSolWait _ _ _ _)
+            · exact resumeAfterSol_reach hp0 _ _ h8
+            · exact Star.tail h8 (Ev.setSolWait _ _ _ _)
 
 end
 
@@ -843,7 +845,8 @@ def stepBody (env : OEnv) (s : OState) (inp : OInput) : OState × List OOut :=
     finishStep (settle 8 (dispatch ({ s with db := db, notified := true }, [.line s!"add {if ok then 1 else 0}"])))
   | .cut =>
     if s.mode matches .dead then (s, []) else
-    let s := { s with lastReq := none, select := none, deferred := none, pending := none, mode := .idle .noSleep }
+    let s := { s with db := s.db.reset, lastReq := none, select := none, deferred := none, pending := none,
+                      mode := .idle .noSleep }
     finishStep (settle 8 (runPass passFuel (s, [.line "session link stdio UnexpectedEof"])))
 
 set_option linter.unusedVariables false in
@@ -982,7 +985,8 @@ theorem step_add (env : OEnv) (s : OState) (t : PtType) (idx cls : Nat) :
 
 /-- the state a disconnect leaves before the new session's first pass -/
 def cutState (s : OState) : OState :=
-  { s with lastReq := none, select := none, deferred := none, pending := none, mode := .idle .noSleep }
+  { s with db := s.db.reset, lastReq := none, select := none, deferred := none, pending := none,
+           mode := .idle .noSleep }
 
 theorem step_cut (env : OEnv) (s : OState) :
     stepBody env s .cut = (s, []) ∨
